@@ -125,6 +125,8 @@ func TestB2C15Operators(t *testing.T) {
 	rng := rand.New(rand.NewSource(seed))
 	operands := []pdf.Object{
 		pdf.Integer(0), pdf.Integer(-17), pdf.Integer(2147483647), pdf.Real(0.5), pdf.Real(-12.25), pdf.Real(3), pdf.Real(1e-5),
+		// reals whose shortest decimal form needs 16 or 17 digits, and large ones
+		pdf.Real(9.100000000000001), pdf.Real(1234.5678901234567), pdf.Real(0.1 + 0.2), pdf.Real(123456789.12345679), pdf.Real(-0.30000000000000004), pdf.Real(5e-324), pdf.Real(1.7976931348623157e308), pdf.Real(9007199254740993), pdf.Real(72057594037927.95),
 		pdf.Name("F1"), pdf.Name("a b"), pdf.Name("x#y"), pdf.Name(""), pdf.Name("Do"), pdf.Name("EI"),
 		pdf.String("text"), pdf.String("(un)balanced)("), pdf.String("back\\slash"), pdf.String("\r\n\t"), pdf.String("\x00\xff\x80binary"), pdf.String(""), pdf.String("EI"), pdf.String("ID"),
 		pdf.Boolean(true), pdf.Boolean(false), nil,
